@@ -1,14 +1,28 @@
 // C41 — kad MemoryStore (std HashMap/HashSet -> dependency shim).  One step from
-// ANY small store state under ANY small configuration.
+// ANY small store state under ANY small configuration, compared with the
+// abstract model of the statement:
+//   records  : finite map  Key -> Record          (bounded by max_records)
+//   providers: finite map  Key -> list of ProviderRecord, one per provider
+//              (each list bounded by max_providers_per_key)
+//   provided : the set of exactly the local node's provider records
+// The store is built as a struct literal (the constructor derives the local
+// kbucket key through Sha256, which the store never reads: only `preimage()`).
 
-fn local() -> PeerId {
-    PeerId::from_multihash(Multihash::<64>::wrap(0, &[0xAA]).unwrap()).unwrap()
+fn peer(d: u8) -> PeerId {
+    PeerId::from_multihash(Multihash::<64>::wrap(0, &[d]).unwrap()).unwrap()
 }
 
-fn any_peer() -> PeerId {
-    // either the local peer or one of 255 others
-    let d: u8 = kani::any();
-    PeerId::from_multihash(Multihash::<64>::wrap(0, &[d]).unwrap()).unwrap()
+const LOCAL: u8 = 0xAA;
+
+fn local() -> PeerId {
+    peer(LOCAL)
+}
+
+/// one of three peers: the local node or one of two others
+fn any_peer_tag() -> u8 {
+    let t: u8 = kani::any();
+    kani::assume(t == LOCAL || t == 1 || t == 2);
+    t
 }
 
 fn key(b: u8) -> Key {
@@ -25,40 +39,63 @@ fn rec(k: u8, v: u8, vlen: usize) -> Record {
     Record { key: key(k), value, publisher: None, expires: None }
 }
 
-fn prov(k: u8, p: PeerId, tag: u8) -> ProviderRecord {
-    // `tag` distinguishes two records of the same (key, provider): a refreshed record
-    ProviderRecord { key: key(k), provider: p, expires: None, addresses: if tag == 0 { Vec::new() } else { vec![Multiaddr::empty()] } }
+/// `tag` distinguishes two records of the same (key, provider): a refreshed record
+/// carries a different expiry.
+fn prov(k: u8, p: u8, tag: u8) -> ProviderRecord {
+    let expires = if tag == 0 {
+        None
+    } else {
+        let zero: Instant = unsafe { std::mem::zeroed() };
+        Some(zero + std::time::Duration::from_secs(tag as u64))
+    };
+    ProviderRecord { key: key(k), provider: peer(p), expires, addresses: Vec::new() }
 }
 
 fn any_config() -> MemoryStoreConfig {
-    let c = MemoryStoreConfig {
-        max_records: kani::any::<u8>() as usize % 4,
-        max_value_bytes: kani::any::<u8>() as usize % 4,
-        max_providers_per_key: kani::any::<u8>() as usize % 3,
-        max_provided_keys: kani::any::<u8>() as usize % 3,
-    };
-    c
+    let (a, b, c, d): (u8, u8, u8, u8) = (kani::any(), kani::any(), kani::any(), kani::any());
+    kani::assume(a <= 3 && b <= 3 && c <= 2 && d <= 2);
+    MemoryStoreConfig {
+        max_records: a as usize,
+        max_value_bytes: b as usize,
+        max_providers_per_key: c as usize,
+        max_provided_keys: d as usize,
+    }
 }
 
-fn any_store() -> MemoryStore {
-    let mut s = MemoryStore::with_config(local(), any_config());
-    // up to two stored records with symbolic keys / values
-    if kani::any() {
-        let k: u8 = kani::any();
-        s.records.insert(key(k), rec(k, kani::any(), 1));
+fn empty_store() -> MemoryStore {
+    MemoryStore {
+        local_key: crate::kbucket::verif::c41::key_with_bytes(local(), [0u8; 32]),
+        config: any_config(),
+        records: HashMap::default(),
+        providers: HashMap::default(),
+        provided: HashSet::default(),
     }
+}
+
+/// ANY store holding up to two records (distinct symbolic one-byte keys)
+fn any_record_store() -> MemoryStore {
+    let mut s = empty_store();
+    let k1: u8 = kani::any();
+    let k2: u8 = kani::any();
+    kani::assume(k1 != k2);
     if kani::any() {
-        let k: u8 = kani::any();
-        s.records.insert(key(k), rec(k, kani::any(), 1));
+        s.records.insert(key(k1), rec(k1, kani::any(), 1));
+        if kani::any() {
+            s.records.insert(key(k2), rec(k2, kani::any(), 1));
+        }
     }
     s
 }
 
-/// put / get / remove behave like a bounded map
+fn value_of(s: &MemoryStore, k: u8) -> Option<(usize, u8)> {
+    s.get(&key(k)).map(|r| (r.value.len(), if r.value.is_empty() { 0 } else { r.value[0] }))
+}
+
+/// put / get / remove behave like a map bounded by max_records / max_value_bytes
 #[kani::proof]
 #[kani::unwind(8)]
 fn contract_put_get_remove() {
-    let mut s = any_store();
+    let mut s = any_record_store();
     let n0 = s.records.len();
     let k: u8 = kani::any();
     let other: u8 = kani::any();
@@ -66,52 +103,58 @@ fn contract_put_get_remove() {
     let vlen: usize = kani::any();
     kani::assume(vlen <= 3);
     let v: u8 = kani::any();
-    let had = s.records.contains_key(&key(k));
-    let other_before = s.get(&key(other)).map(|r| r.value.clone());
+    let before = value_of(&s, k);
+    let other_before = value_of(&s, other);
+    let max_records = s.config.max_records;
+    let max_value_bytes = s.config.max_value_bytes;
     let r = s.put(rec(k, v, vlen));
-    let too_large = vlen >= s.config.max_value_bytes;
-    let full = !had && n0 >= s.config.max_records;
-    match &r {
-        Err(Error::ValueTooLarge) => assert!(too_large),
-        Err(Error::MaxRecords) => assert!(!too_large && full),
-        Err(_) => assert!(false),
-        Ok(()) => assert!(!too_large && !full),
-    }
+    // refused exactly when the value has max_value_bytes or more, or the key is new
+    // and max_records are already stored
+    let too_large = vlen >= max_value_bytes;
+    let full = before.is_none() && n0 >= max_records;
+    assert!(r.is_ok() == !(too_large || full));
     if r.is_ok() {
-        // get returns the latest put; the store grew by one only for a new key
-        let got = s.get(&key(k));
-        assert!(got.is_some());
-        let got = got.unwrap();
-        assert!(got.value.len() == vlen && (vlen == 0 || got.value[0] == v));
-        assert!(s.records.len() == n0 + (!had) as usize);
+        // get returns the latest put; the store grows by one only for a new key
+        assert!(value_of(&s, k) == Some((vlen, if vlen == 0 { 0 } else { v })));
+        assert!(s.records.len() == n0 + before.is_none() as usize);
     } else {
+        // a refused put changes nothing
+        assert!(value_of(&s, k) == before);
         assert!(s.records.len() == n0);
-        assert!(s.records.contains_key(&key(k)) == had);
     }
     // frame: any other key is untouched
-    assert!(s.get(&key(other)).map(|r| r.value.clone()) == other_before);
+    assert!(value_of(&s, other) == other_before);
     // remove deletes exactly that key
+    let n1 = s.records.len();
+    let had = value_of(&s, k).is_some();
     s.remove(&key(k));
-    assert!(s.get(&key(k)).is_none());
-    assert!(s.get(&key(other)).map(|r| r.value.clone()) == other_before);
+    assert!(value_of(&s, k).is_none());
+    assert!(value_of(&s, other) == other_before);
+    assert!(s.records.len() == n1 - had as usize);
+    std::mem::forget(s);
 }
 
+/// ANY store with up to one provider key holding up to two provider records of
+/// distinct providers (each possibly the local node, each fresh or refreshed),
+/// `provided` in sync with it.
 fn any_provider_store() -> (MemoryStore, u8) {
-    let mut s = MemoryStore::with_config(local(), any_config());
+    let mut s = empty_store();
     let k: u8 = kani::any();
     if kani::any() {
         let mut list: SmallVec<[ProviderRecord; K_VALUE.get()]> = SmallVec::new();
-        let p1 = any_peer();
-        list.push(prov(k, p1, 0));
-        if p1 == local() {
-            s.provided.insert(prov(k, p1, 0));
+        let p1 = any_peer_tag();
+        let t1: u8 = if kani::any() { 1 } else { 0 };
+        list.push(prov(k, p1, t1));
+        if p1 == LOCAL {
+            s.provided.insert(prov(k, p1, t1));
         }
         if kani::any() {
-            let p2 = any_peer();
+            let p2 = any_peer_tag();
             kani::assume(p2 != p1);
-            list.push(prov(k, p2, 0));
-            if p2 == local() {
-                s.provided.insert(prov(k, p2, 0));
+            let t2: u8 = if kani::any() { 1 } else { 0 };
+            list.push(prov(k, p2, t2));
+            if p2 == LOCAL {
+                s.provided.insert(prov(k, p2, t2));
             }
         }
         s.providers.insert(key(k), list);
@@ -119,8 +162,37 @@ fn any_provider_store() -> (MemoryStore, u8) {
     (s, k)
 }
 
-fn listed(s: &MemoryStore, k: u8, p: &PeerId) -> Option<usize> {
-    s.providers.get(&key(k)).and_then(|l| l.iter().position(|x| &x.provider == p))
+fn listed(s: &MemoryStore, k: u8, p: u8) -> Option<usize> {
+    let p = peer(p);
+    s.providers.get(&key(k)).and_then(|l| l.iter().position(|x| x.provider == p))
+}
+
+fn list_len(s: &MemoryStore, k: u8) -> usize {
+    s.providers.get(&key(k)).map_or(0, |l| l.len())
+}
+
+/// `provided` lists exactly the local node's current provider records (for the
+/// keys k / k2 the harness can reach and the record tags 0 / 1 / 2 it uses)
+fn provided_in_sync(s: &MemoryStore, keys: [u8; 2]) -> bool {
+    let mut ok = true;
+    let mut n = 0;
+    let mut i = 0;
+    while i < 2 {
+        let k = keys[i];
+        if i == 0 || keys[1] != keys[0] {
+            let cur = s.providers.get(&key(k)).and_then(|l| l.iter().find(|x| x.provider == local()).cloned());
+            let mut t = 0u8;
+            while t < 3 {
+                let cand = prov(k, LOCAL, t);
+                let is_cur = cur.as_ref().map_or(false, |c| *c == cand);
+                ok &= s.provided.contains(&cand) == is_cur;
+                t += 1;
+            }
+            n += cur.is_some() as usize;
+        }
+        i += 1;
+    }
+    ok && s.provided.len() == n
 }
 
 /// add_provider: per-key bound, in-place update, `provided` mirrors the local node's records
@@ -129,80 +201,91 @@ fn listed(s: &MemoryStore, k: u8, p: &PeerId) -> Option<usize> {
 fn contract_add_provider() {
     let (mut s, k0) = any_provider_store();
     let k: u8 = if kani::any() { k0 } else { kani::any() };
-    let p = any_peer();
-    let tag: u8 = if kani::any() { 1 } else { 0 };
+    let p = any_peer_tag();
+    let q = any_peer_tag();
+    kani::assume(q != p);
+    let tag: u8 = if kani::any() { 2 } else { 0 };
     let new_rec = prov(k, p, tag);
+    let maxp = s.config.max_providers_per_key;
     let keys0 = s.providers.len();
-    let len0 = s.providers.get(&key(k)).map_or(0, |l| l.len());
-    let pos0 = listed(&s, k, &p);
-    let key_known = s.providers.contains_key(&key(k));
+    let len0 = list_len(&s, k);
+    let pos0 = listed(&s, k, p);
+    let q0 = listed(&s, k, q);
+    let other_len0 = if k != k0 { list_len(&s, k0) } else { 0 };
+    kani::assume(len0 <= maxp); // well-formed state: the per-key bound holds
+    kani::cover!(true);
+    assert!(provided_in_sync(&s, [k0, k])); // the generator builds states in sync
     let r = s.add_provider(new_rec.clone());
-    let len1 = s.providers.get(&key(k)).map_or(0, |l| l.len());
-    if !key_known && s.config.max_provided_keys == keys0 {
-        assert!(matches!(r, Err(Error::MaxProvidedKeys)));
-        assert!(s.providers.len() == keys0 && len1 == 0);
-    } else {
-        assert!(r.is_ok());
-        match pos0 {
-            Some(i) => {
-                // re-adding a provider updates it in place
-                assert!(len1 == len0);
-                assert!(s.providers.get(&key(k)).unwrap()[i] == new_rec);
-            }
-            None => {
-                if len0 == s.config.max_providers_per_key {
-                    assert!(len1 == len0); // list full: silently not added
-                    assert!(listed(&s, k, &p).is_none());
-                } else {
-                    assert!(len1 == len0 + 1);
-                    assert!(listed(&s, k, &p) == Some(len0));
-                }
-            }
+    let len1 = list_len(&s, k);
+    // each key lists at most max_providers_per_key providers
+    assert!(len1 <= maxp);
+    // another provider of the same key is untouched, another key's list too
+    assert!(listed(&s, k, q) == q0);
+    if k != k0 {
+        assert!(list_len(&s, k0) == other_len0);
+    }
+    match pos0 {
+        Some(i) => {
+            // re-adding a provider updates it in place (same position, new record)
+            assert!(r.is_ok());
+            assert!(len1 == len0);
+            assert!(listed(&s, k, p) == Some(i));
+            assert!(s.providers.get(&key(k)).unwrap()[i] == new_rec);
         }
-        // never more than max_providers_per_key (unless the state already exceeded it)
-        assert!(len1 <= s.config.max_providers_per_key || len1 <= len0);
-        // provided() lists exactly the local node's current record for this key
-        if p == local() {
-            let now_listed = listed(&s, k, &p).is_some();
-            assert!(s.provided.contains(&new_rec) == now_listed);
-            if tag == 1 {
-                // the superseded record is gone
-                assert!(!s.provided.contains(&prov(k, p, 0)));
+        None => {
+            if r.is_ok() && len0 < maxp {
+                assert!(len1 == len0 + 1);
+                assert!(listed(&s, k, p) == Some(len0));
+                assert!(s.providers.get(&key(k)).unwrap()[len0] == new_rec);
+            } else {
+                // refused (provided-keys limit) or list full: the provider is not listed
+                assert!(len1 == len0);
+                assert!(listed(&s, k, p).is_none());
+            }
+            if r.is_err() {
+                assert!(matches!(r, Err(Error::MaxProvidedKeys)));
+                assert!(s.providers.len() == keys0);
             }
         }
     }
+    // provided() lists exactly the local node's current provider records
+    assert!(provided_in_sync(&s, [k0, k]));
+    std::mem::forget(s);
 }
 
 #[kani::proof]
 #[kani::unwind(8)]
 fn contract_remove_provider() {
-    let (mut s, k) = any_provider_store();
-    let p = any_peer();
-    let q = any_peer();
+    let (mut s, k0) = any_provider_store();
+    let k: u8 = if kani::any() { k0 } else { kani::any() };
+    let p = any_peer_tag();
+    let q = any_peer_tag();
     kani::assume(q != p);
-    let q0 = listed(&s, k, &q).is_some();
-    let len0 = s.providers.get(&key(k)).map_or(0, |l| l.len());
-    let was = listed(&s, k, &p).is_some();
-    s.remove_provider(&key(k), &p);
-    assert!(listed(&s, k, &p).is_none());
-    assert!(listed(&s, k, &q).is_some() == q0);
-    let len1 = s.providers.get(&key(k)).map_or(0, |l| l.len());
-    assert!(len1 == len0 - was as usize);
+    let q0 = listed(&s, k0, q).is_some();
+    let len0 = list_len(&s, k0);
+    let p0 = listed(&s, k0, p).is_some();
+    let was = k == k0 && p0;
+    s.remove_provider(&key(k), &peer(p));
+    // exactly that provider record leaves; every other one stays
+    assert!(listed(&s, k, p).is_none());
+    assert!(listed(&s, k0, q).is_some() == q0);
+    assert!(list_len(&s, k0) == len0 - was as usize);
+    if k != k0 {
+        assert!(listed(&s, k0, p).is_some() == p0);
+    }
     // empty lists are dropped
-    assert!(s.providers.get(&key(k)).map_or(true, |l| !l.is_empty()));
-    if p == local() {
-        assert!(!s.provided.contains(&prov(k, p, 0)));
-    }
-    if q == local() {
-        assert!(s.provided.contains(&prov(k, q, 0)) == q0);
-    }
+    assert!(s.providers.get(&key(k0)).map_or(true, |l| !l.is_empty()));
+    // provided() still lists exactly the local node's current provider records
+    assert!(provided_in_sync(&s, [k0, k]));
+    std::mem::forget(s);
 }
 
 /// Vacuity canary: must FAIL.
 #[kani::proof]
 #[kani::unwind(8)]
 fn canary_put_always_ok() {
-    let mut s = any_store();
+    let mut s = any_record_store();
     let r = s.put(rec(kani::any(), 1, 1));
     assert!(r.is_ok());
+    std::mem::forget(s);
 }
